@@ -40,7 +40,7 @@ LEVEL_NOTE = ("Trusted: Lean kernel (+propext, Classical.choice, Quot.sound); th
               "bitarray/bytearray copying semantics of CPython.")
 TECHNIQUE = "Lean 4 proof (heap invariant by induction over operation histories) + exhaustive route x mutator correspondence"
 
-KINDS = ["invert", "append1", "set0", "reverse", "clear", "ilshift1", "imul2", "delall"]
+KINDS = ["invert", "append1", "set0", "reverse", "clear", "ilshift1", "imul2", "delall", "overwrite1", "insert1", "prepend1"]
 
 
 def _apply_kind_bits(bits, kind):
@@ -58,6 +58,10 @@ def _apply_kind_bits(bits, kind):
         return (bits[1:] + "0") if bits else bits
     if kind == "imul2":
         return bits + bits
+    if kind == "overwrite1":
+        return "1" + bits[1:]
+    if kind in ("insert1", "prepend1"):
+        return "1" + bits
     raise ValueError(kind)
 
 
@@ -80,6 +84,12 @@ def _mutate_obj(x, kind):
             x.__imul__(2)
         elif kind == "delall":
             del x[:]
+        elif kind == "overwrite1":
+            x.overwrite("0b1", 0)
+        elif kind == "insert1":
+            x.insert("0b1", 0)
+        elif kind == "prepend1":
+            x.prepend("0b1")
     except Exception:
         pass
 
@@ -103,6 +113,10 @@ def _mutate_ext(e, kind):
                     e <<= 1
             elif kind == "imul2":
                 e *= 2
+            elif kind == "overwrite1":
+                e[0:1] = bitarray.bitarray("1")
+            elif kind in ("insert1", "prepend1"):
+                e.insert(0, 1)
         else:                                    # bytearray / array('B') / memoryview over a bytearray
             if kind == "invert":
                 for i in range(len(e)):
